@@ -452,3 +452,31 @@ PROPS['C11'] = dict(
     extra_coverage={'accepted_inputs': lambda agg, d: agg['counters'].get('accepted_inputs', 0), 'projections_that_removed_something': lambda agg, d: agg['counters'].get('projections_that_removed_something', 0)},
     must_observe={'projections removing something': lambda agg, d: agg['counters'].get('projections_that_removed_something', 0) > 0},
 )
+
+
+# ---------------------------------------------------------------- C13
+def c13_jobs(tier):
+    return [
+        Job('store32', 'c13', 'store32', q(tier, 3 * 600, 0), flavour='asan2', timeout=q(tier, 900, 14400)),
+        Job('store64', 'c13', 'store64', q(tier, 6000, 400000), flavour='asan2'),
+        Job('strings', 'c13', 'strings', q(tier, 200000, 10000000)),
+        Job('copyarray', 'c13', 'copyarray', q(tier, 40000, 2000000)),
+        Job('store64-float', 'c13', 'store64', q(tier, 2000, 100000), flavour='asan2', defines={'ARDUINOJSON_USE_DOUBLE': 0}),
+    ]
+
+
+PROPS['C13'] = dict(
+    level='exploration',
+    rule='stored kinds int32 / uint32 / float: bit patterns in blocks of 65536 scattered over the whole 32-bit space (quick: 1800 blocks = 1.2e8 values; thorough: ALL 3 x 2^32) x 12 target types '
+         '(int8..int64, uint8..uint64, long, unsigned long, float, double): as<T>(), is<T>(), operator| default; 64-bit kinds: values within 3 of every power of two and type limit, special doubles, random; '
+         'numeric strings of any length (linked and copied) converted by the same rule; copyArray 1-D / 2-D / string destinations with guard elements and exactly sized heap destinations. '
+         'Oracle: x87 long double (exact for all stored kinds) and the rule of the statement. distinct = block / value / literal',
+    jobs=c13_jobs,
+    exhaustive=lambda tier: False,
+    min_evaluations=dict(quick=200000, thorough=10000000),
+    technique='exhaustive/boundary value enumeration executed under ASan+UBSan (float-cast-overflow, signed overflow, shifts) with an exact long-double oracle',
+    level_text='Exploration; exhaustive over all 2^32 values of each 32-bit storage kind in the thorough tier.',
+    level_note='String conversions whose value lies within 1e-6 of a range limit or of an integer are not judged (don\'t-care 9: the parse error C12 allows may flip the outcome).',
+    assumptions=COMMON_ASSUME,
+    extra_coverage={'conversions': lambda agg, d: agg['counters'].get('conversions', 0), 'copyarray_calls': lambda agg, d: agg['counters'].get('copyarray_calls', 0)},
+)
